@@ -125,7 +125,8 @@ Step(op, o) ==
         reasonOK(e) ==
             LET v == e[2] IN
             CASE e[1] = "evict"   -> /\ name \in {"insert", "resize", "evict_all", "flush"}
-                                     /\ (isInsert => ShardOf(at1[v].key) = s)
+                                     \* a disk-only (phantom) insert evicts nothing: the copy it displaces is replaced
+                                     /\ (isInsert => (~op.ph /\ ShardOf(at1[v].key) = s))
               [] e[1] = "replace" -> isInsert /\ v <= Len(attr) /\ attr[v].key = op.k /\ idx[op.k] = v
               [] e[1] = "remove"  -> name = "remove" /\ idx[op.k] = v
               [] e[1] = "clear"   -> name \in {"clear", "drop_cache"}
